@@ -34,6 +34,7 @@ class Omp:
         s.atomic = 0
         s.havoc_ctr = 0
         s.private_objs = set()
+        s.armed = False
 
 
 def install(m, mode, threads=1, sel_loop=None, sel_region=0):
@@ -42,8 +43,8 @@ def install(m, mode, threads=1, sel_loop=None, sel_region=0):
     E = m.ext
     E['@__kmpc_fork_call'] = fork_call
     E['@__kmpc_global_thread_num'] = lambda m, loc: m.omp.tid
-    E['@__kmpc_serialized_parallel'] = lambda m, loc, gtid: 0
-    E['@__kmpc_end_serialized_parallel'] = lambda m, loc, gtid: 0
+    E['@__kmpc_serialized_parallel'] = serialized_begin
+    E['@__kmpc_end_serialized_parallel'] = serialized_end
     E['@__kmpc_for_static_init_4'] = lambda m, *a: static_init(m, 32, True, *a)
     E['@__kmpc_for_static_init_4u'] = lambda m, *a: static_init(m, 32, False, *a)
     E['@__kmpc_for_static_init_8'] = lambda m, *a: static_init(m, 64, True, *a)
@@ -58,6 +59,7 @@ def install(m, mode, threads=1, sel_loop=None, sel_region=0):
     E['@__kmpc_critical'] = lambda m, *a: _atomic(m, +1)
     E['@__kmpc_end_critical'] = lambda m, *a: _atomic(m, -1)
     E['@omp_get_thread_num'] = lambda m: m.omp.tid
+    E['@vrace_begin'] = lambda m: setattr(m.omp, 'armed', True)
     E['@omp_get_num_threads'] = lambda m: m.omp.team
     if mode == 'race':
         m.access_hook = race_access
@@ -74,10 +76,21 @@ def fork_call(m, loc, nargs, fn, *args):
     name = fn.name if isinstance(fn, FnPtr) else None
     if name is None:
         raise EngineError('__kmpc_fork_call through a non-function')
-    region = o.region_count
-    o.region_count += 1
     if o.in_region:
         raise EngineError('nested parallel region')
+    if o.mode == 'race' and not o.armed:
+        # before the harness calls vrace_begin(): set-up code, executed normally by one thread and not analysed
+        o.in_region = True
+        o.cur_region = -100
+        try:
+            g0 = m.alloc(4, 'heap', 'omp-gtid')
+            m.store(g0, 0, 4)
+            m.call(name, [g0, g0] + list(args))
+        finally:
+            o.in_region = False
+        return None
+    region = o.region_count
+    o.region_count += 1
     T = m.nthreads if o.mode == 'team' else 1
     if isinstance(T, Term):
         raise EngineError('symbolic thread count')
@@ -99,7 +112,38 @@ def fork_call(m, loc, nargs, fn, *args):
         o.tid = 0
         o.team = 1
         o.cur_loop = None
+    if o.mode == 'race' and region == o.sel_region:
+        # the region under analysis is complete; what follows would run on havocked data
+        raise PathEnd('return', 'selected parallel region analysed')
     return None
+
+
+def serialized_begin(m, loc, gtid):
+    """'#pragma omp parallel if (n > 10000)' with a false condition: the outlined body is called directly.  In race mode
+    the region is analysed all the same (for larger vectors the very same body runs in parallel)."""
+    o = m.omp
+    if o.mode != 'race' or not o.armed or o.in_region:
+        return 0
+    o.cur_region = o.region_count
+    o.region_count += 1
+    o.in_region = True
+    o.serialized = True
+    o.phase = 0
+    o.loop_ctr = 0
+    o.first_private_obj = len(m.objs)
+    return 0
+
+
+def serialized_end(m, loc, gtid):
+    o = m.omp
+    if o.mode != 'race' or not getattr(o, 'serialized', False):
+        return 0
+    o.serialized = False
+    o.in_region = False
+    o.cur_loop = None
+    if o.cur_region == o.sel_region:
+        raise PathEnd('return', 'selected parallel region analysed')
+    return 0
 
 
 def static_init(m, bits, signed, loc, gtid, sched, plast, plower, pupper, pstride, incr, chunk):
@@ -116,8 +160,9 @@ def static_init(m, bits, signed, loc, gtid, sched, plast, plower, pupper, pstrid
     lid = o.loop_ctr
     o.loop_ctr += 1
     trip = up - lo + 1
-    if o.mode == 'team' or not o.in_region:
-        T, tid = (o.team, o.tid) if o.in_region else (1, 0)
+    if o.mode == 'team' or not o.in_region or (o.mode == 'race' and o.cur_region != o.sel_region):
+        # team mode; or (race mode) a region that is not the one under analysis: executed normally by one thread
+        T, tid = (o.team, o.tid) if (o.in_region and o.mode == 'team') else (1, 0)
         if trip <= 0:
             return None
         if trip < T:
@@ -183,6 +228,8 @@ def race_access(m, rw, p, n, arg):
         return None
     if p.obj == 0 or p.obj >= o.first_private_obj:
         return None
+    if getattr(o, 'serialized', False) and not any('omp_outlined' in fn for fn in m.stack):
+        return None      # bookkeeping of the serialised call in the encountering thread's frame, not part of the region body
     ob = m.objs[p.obj]
     if ob.name in ('omp-gtid', 'harness-args') or ob.kind == 'global' and ob.name.startswith('@.'):
         return None
@@ -207,9 +254,9 @@ def race_access(m, rw, p, n, arg):
             m.syms[h.args[0]] = h
             return h
         return None
-    # stores at symbolic addresses are only logged (the abstract thread's one iteration must not disturb shared state that
-    # later loops read at concrete addresses); stores at concrete addresses are performed normally
-    if sym_off:
+    # doubles stored at symbolic addresses are only logged (their values are irrelevant); integers and pointers stored at
+    # symbolic addresses are performed (conditional update / offset concretisation) so that the same iteration reads them back
+    if sym_off and is_real:
         return True
     return None
 
